@@ -10,7 +10,6 @@ package yang
 import (
 	"fmt"
 	"sort"
-	"strings"
 	"testing"
 )
 
@@ -98,6 +97,40 @@ func govcCorpus() []govcSet {
 			`module a { namespace "urn:a"; prefix a; import m { prefix m; } augment "/m:c/m:gc" { leaf deep { type string; } } }`}, true},
 		{"bad-type-augmented-into-grouping-action-input", []string{base,
 			`module a { namespace "urn:a"; prefix a; import m { prefix m; } augment "/m:d/m:act/m:input" { leaf q { type bogus; } } }`}, true},
+		{"shorthand-list-and-leaf-list-under-a-choice", []string{base,
+			`module sh { namespace "urn:sh"; prefix sh; import m { prefix m; }
+  grouping shg { choice gch { list gl { key k; leaf k { type string; } } leaf-list gll { type string; } } }
+  container c { choice ch { list l { key k; leaf k { type string; } min-elements 1; } leaf-list ll { type string; max-elements 3; } container plain; } uses shg; }
+  container c2 { uses shg; }
+  rpc r { input { choice ich { list il { key k; leaf k { type string; } } } } }
+  augment "/m:l/m:ch" { list al { key k; leaf k { type string; } } leaf-list all { type string; } }
+}`}, false},
+		{"two-revisions-of-one-module", []string{base,
+			`module rv { namespace "urn:rv"; prefix rv; import m { prefix m; } revision 2020-01-01;
+  container top { choice ch { leaf a { type string; } container b; } }
+  rpc q { input { choice ic { leaf x { type string; } } } }
+  augment "/rv:top" { leaf added { type string; } }
+}`,
+			`module rv { namespace "urn:rv"; prefix rv; import m { prefix m; } revision 2021-01-01;
+  container top { choice ch { leaf a { type string; } container b; leaf c { type string; } } }
+  rpc q { input { choice ic { leaf x { type string; } leaf y { type string; } } } }
+  augment "/rv:top" { leaf added { type string; } leaf more { type string; } }
+}`}, false},
+		{"two-revisions-the-older-one-bad", []string{
+			`module rv { namespace "urn:rv"; prefix rv; revision 2020-01-01; container top { leaf x { type bogus; } } }`,
+			`module rv { namespace "urn:rv"; prefix rv; revision 2021-01-01; container top { leaf x { type string; } } }`}, true},
+		{"two-revisions-the-newer-one-bad", []string{
+			`module rv { namespace "urn:rv"; prefix rv; revision 2020-01-01; container top { leaf x { type string; } } }`,
+			`module rv { namespace "urn:rv"; prefix rv; revision 2021-01-01; container top { list l { key k; leaf k { type string; } max-elements bogus; } } }`}, true},
+		{"augment-whose-body-is-only-a-missing-grouping", []string{base,
+			`module a { namespace "urn:a"; prefix a; import m { prefix m; } augment "/m:c" { uses no-such-grouping; } }`}, true},
+		{"augment-whose-body-is-only-a-missing-grouping-same-module", []string{
+			`module m { namespace "urn:m"; prefix m; container c; rpc r; augment "/m:c" { when "1"; uses no-such-grouping; } }`}, true},
+		{"augment-only-a-missing-grouping-into-rpc-input-from-submodule", []string{
+			`module m { namespace "urn:m"; prefix m; include s; container c { choice ch { leaf a { type string; } } } rpc r; }`,
+			`submodule s { belongs-to m { prefix m; } augment "/m:r/m:input" { uses nope; } augment "/m:c/m:ch" { uses nope2; } }`}, true},
+		{"valid-empty-augment", []string{base,
+			`module a { namespace "urn:a"; prefix a; import m { prefix m; } grouping only-types { typedef t { type string; } } augment "/m:c" { description "nothing"; uses only-types; } }`}, false},
 		{"deviation", []string{base,
 			`module dv { namespace "urn:dv"; prefix dv; import m { prefix m; } deviation "/m:c/m:gc/m:gll" { deviate add { min-elements 5; } } deviation "/m:d/m:gl" { deviate not-supported; } }`}, false},
 	}
@@ -148,14 +181,26 @@ func (w *govcWalk) visit(e *Entry, parent *Entry, key string, path string) int {
 	} else if e.Dir == nil && e.Kind != AnyDataEntry && e.Kind != AnyXMLEntry && e.RPC == nil {
 		w.failf("%s: kind %v without a child map", path, e.Kind)
 	}
-	if e.ListAttr != nil && !(e.IsList() || e.IsLeafList()) {
-		w.failf("%s: list attributes on a node that is neither list nor leaf-list", path)
+	// (IsList / IsLeafList are themselves defined through ListAttr: go by the statement the node was made from)
+	// (a leaf-list entry is made from a synthesized *Leaf: the keyword of the source statement tells)
+	kw := ""
+	if e.Node != nil && e.Node.Statement() != nil {
+		kw = e.Node.Statement().Keyword
 	}
-	if n, ok := e.Node.(*List); ok && n != nil && e.ListAttr == nil {
-		w.failf("%s: a list without list attributes", path)
+	fromList, fromLeafList := kw == "list" && e.Kind == DirectoryEntry, kw == "leaf-list" && e.Kind == LeafEntry
+	if e.ListAttr != nil && !fromList && !fromLeafList {
+		w.failf("%s: list attributes on a node (made from a %q statement, kind %v) that is neither list nor leaf-list", path, kw, e.Kind)
 	}
-	if n, ok := e.Node.(*LeafList); ok && n != nil && e.ListAttr == nil {
-		w.failf("%s: a leaf-list without list attributes", path)
+	if (e.IsList() || e.IsLeafList()) && !fromList && !fromLeafList {
+		w.failf("%s: made from a %q statement, kind %v, reports IsList=%v IsLeafList=%v", path, kw, e.Kind, e.IsList(), e.IsLeafList())
+	}
+	if e.Kind == CaseEntry || e.Kind == ChoiceEntry {
+		if e.Type != nil || e.RPC != nil || e.Key != "" {
+			w.failf("%s: a choice/case with a type, rpc part or key", path)
+		}
+	}
+	if (fromList || fromLeafList) && e.ListAttr == nil {
+		w.failf("%s: a %s without list attributes", path, kw)
 	}
 	var keys []string
 	for k := range e.Dir {
@@ -209,15 +254,19 @@ func TestGovcBoundedC04Trees(t *testing.T) {
 				continue
 			}
 			w := &govcWalk{seen: map[*Entry]string{}}
+			// every module once -- by object, not by name: two revisions of one
+			// module are two modules with a tree each
 			var names []string
 			for n := range ms.Modules {
-				if !strings.Contains(n, "@") {
-					names = append(names, n)
-				}
+				names = append(names, n)
 			}
 			sort.Strings(names)
+			done := map[*Module]bool{}
 			for _, n := range names {
-				nodes += w.visit(ToEntry(ms.Modules[n]), nil, "", "/"+n)
+				if m := ms.Modules[n]; !done[m] {
+					done[m] = true
+					nodes += w.visit(ToEntry(m), nil, "", "/"+n)
+				}
 			}
 			for _, f := range w.fails {
 				fmt.Printf("GOVC-FAIL name=c04-trees set %s (load order %v): %s\n", set.name, perm, f)
